@@ -294,6 +294,14 @@ class LayerRule(
                 "Please specify an architecture to base the layers on first."
             )
 
+        layers_without_modules = [
+            layer for layer in layers if not self._architecture[layer]
+        ]
+        if layers_without_modules:
+            raise ImproperlyConfigured(
+                f'Specify the modules of layer(s) {", ".join(layers_without_modules)} first.'
+            )
+
         return [
             (module.identifier, module.identifier_is_regex)
             for layer in layers
